@@ -69,3 +69,12 @@ package actionlint
 //@   requires [C16] nlfree(what) && nlfree(why)
 //@ func (*globValidator).invalidRefChar
 //@   requires [C16] nlfree(why)
+
+// C16, the snippet: the caret is indented by the display width (terminal cells) of the text in front
+// of the reported column, not by its byte or rune count (strwidth is the result of runewidth.StringWidth)
+//@ spec strwidth(s: string): int
+//@ func (*Error).getIndicator
+//@   props C16
+//@   anchor
+//@   requires e.Column - 1 <= len(line)
+//@   at_call [C16] strings.Repeat: s == " " ==> count == strwidth(line[0..e.Column - 1])
